@@ -47,6 +47,14 @@ class PyBig:
         s.iv = iv
 
 
+class PyBigAny:
+    """an int of unknown magnitude resulting from arithmetic on a huge int (SMT Int); only compared with literals"""
+    kind = "bigany"
+
+    def __init__(s, iv):
+        s.iv = iv
+
+
 class PyFloat:
     kind = "float"
 
@@ -121,8 +129,11 @@ def py_compare(op, a, b):
     """Python's a <op> b on finite numbers: exact, also for mixed int/float (float_richcompare)."""
     ka, kb = a.kind, b.kind
     if ka == "int64" and kb == "int64":
-        return {"<": a.bv < b.bv, "<=": a.bv <= b.bv, ">": a.bv > b.bv, ">=": a.bv >= b.bv,
-                "==": a.bv == b.bv, "!=": a.bv != b.bv}[op]
+        x, y = a.bv, b.bv
+        if x.size() != y.size():         # results of int arithmetic are wider than the 64-bit operands
+            w = max(x.size(), y.size())
+            x, y = z3.SignExt(w - x.size(), x), z3.SignExt(w - y.size(), y)
+        return {"<": x < y, "<=": x <= y, ">": x > y, ">=": x >= y, "==": x == y, "!=": x != y}[op]
     if ka == "float" and kb == "float":
         if op == "!=":
             return z3.Not(z3.fpEQ(a.fp, b.fp))
@@ -131,7 +142,7 @@ def py_compare(op, a, b):
         f = b.fp
         big = z3.fpGEQ(z3.fpAbs(f), BIG)
         pos = z3.Not(z3.fpIsNegative(f))
-        i = _sx(a.bv)
+        i = z3.SignExt(128 - a.bv.size(), a.bv)
         if op == "<":
             return z3.If(big, pos, i < _ceil_sbv(f))
         if op == "<=":
@@ -144,6 +155,12 @@ def py_compare(op, a, b):
         return eq if op == "==" else z3.Not(eq)
     if ka == "float" and kb == "int64":
         return py_compare(FLIP[op], b, a)
+    if ka == "bigany" or kb == "bigany":
+        ai = a.iv if ka in ("bigany", "big") else (z3.BV2Int(a.bv, True) if ka == "int64" else None)
+        bi = b.iv if kb in ("bigany", "big") else (z3.BV2Int(b.bv, True) if kb == "int64" else None)
+        if ai is None or bi is None:
+            raise Unsupported("comparison of an arithmetic result on huge ints with a float")
+        return {"<": ai < bi, "<=": ai <= bi, ">": ai > bi, ">=": ai >= bi, "==": ai == bi, "!=": ai != bi}[op]
     if ka == "big" and kb == "big":
         return {"<": a.iv < b.iv, "<=": a.iv <= b.iv, ">": a.iv > b.iv, ">=": a.iv >= b.iv,
                 "==": a.iv == b.iv, "!=": a.iv != b.iv}[op]
@@ -165,7 +182,9 @@ class Ev:
     self.raised : [(condition, exception type name)] escaping the function
     """
 
-    def __init__(self, fn_or_src, env, is_type, ratio_is_integer=None):
+    def __init__(self, fn_or_src, env, is_type, ratio_is_integer=None, exact_float_rem=False):
+        self.exact_float_rem = exact_float_rem
+        self.domain_notes = []
         src = fn_or_src if isinstance(fn_or_src, str) else textwrap.dedent(inspect.getsource(fn_or_src))
         self.fdef = ast.parse(src).body[0]
         if not isinstance(self.fdef, ast.FunctionDef):
@@ -335,6 +354,8 @@ class Ev:
             r, g = self.expr(e.right, g)
             if isinstance(e.op, ast.Div):
                 return self.div(l, r, g)
+            if isinstance(e.op, ast.Sub):
+                return self.sub_(l, r, g)
             if isinstance(e.op, ast.Mod):
                 return self.mod(l, r, g)
             raise Unsupported("binary operator " + type(e.op).__name__)
@@ -400,9 +421,37 @@ class Ev:
             return PyBool(isint if op == "==" else z3.Not(isint))
         if isinstance(l, PyBool) or isinstance(r, PyBool):
             raise Unsupported("comparison of booleans")
+        l, r = self.lift(l), self.lift(r)
         if hasattr(l, "kind") and hasattr(r, "kind"):
             return PyBool(py_compare(op, l, r))
         raise Unsupported("comparison of %r and %r" % (l, r))
+
+    def lift(self, v):
+        """a numeric literal of the source as a symbolic-domain constant"""
+        if isinstance(v, Concrete) and isinstance(v.v, bool):
+            raise Unsupported("boolean literal in arithmetic")
+        if isinstance(v, Concrete) and isinstance(v.v, int) and abs(v.v) < 2 ** 63:
+            return PyInt(z3.BitVecVal(v.v, 64))
+        if isinstance(v, Concrete) and isinstance(v.v, float):
+            return concrete_value("float", v.v)
+        return v
+
+    def sub_(self, l, r, g):
+        l, r = self.lift(l), self.lift(r)
+        if isinstance(l, PyInt) and isinstance(r, PyInt):
+            w = max(l.bv.size(), r.bv.size()) + 1
+            return PyInt(z3.SignExt(w - l.bv.size(), l.bv) - z3.SignExt(w - r.bv.size(), r.bv)), g
+        if isinstance(l, (PyInt, PyBig)) and isinstance(r, (PyInt, PyBig)):
+            li = l.iv if isinstance(l, PyBig) else z3.BV2Int(l.bv, True)
+            ri = r.iv if isinstance(r, PyBig) else z3.BV2Int(r.bv, True)
+            return PyBigAny(li - ri), g
+        if isinstance(l, PyFloat) or isinstance(r, PyFloat):
+            a, g = self.tofloat(l, g)
+            b, g = self.tofloat(r, g)
+            if a is None or b is None:
+                return PyFloat(z3.FPVal(0.0, F)), g
+            return PyFloat(z3.fpSub(RNE, a, b)), g        # may be +-inf; comparisons with inf are well defined
+        raise Unsupported("subtraction of %r and %r" % (l, r))
 
     def tofloat(self, v, g):
         """implicit int -> float conversion of Python arithmetic (PyLong_AsDouble)"""
@@ -412,6 +461,8 @@ class Ev:
             return z3.fpSignedToFP(RNE, v.bv, F), g
         if isinstance(v, PyBig):
             return None, self.throw(g, T, "OverflowError")
+        if isinstance(v, PyBigAny):
+            raise Unsupported("float conversion of an arithmetic result on huge ints")
         raise Unsupported("float() of %r" % (v,))
 
     def div(self, l, r, g):
@@ -436,6 +487,18 @@ class Ev:
             ri = r.iv if isinstance(r, PyBig) else z3.BV2Int(r.bv, True)
             g = self.throw(g, ri == 0, "ZeroDivisionError")
             return PyBool(li % ri != 0), g
+        if isinstance(l, PyFloat) and isinstance(r, PyInt) and l.bits is not None and self.exact_float_rem:
+            # float % int inside the domain |x| < 2**63, 0 < d <= 2**53 (the caller adds these constraints): the int converts
+            # exactly and C fmod is exact by definition, so the result is non-zero iff x is not an integer multiple of d.
+            # Written on the fields of x (bit-blasting fp.rem on binary64 does not finish: unknown after 900 s in both solvers).
+            g = self.throw(g, r.bv == 0, "ZeroDivisionError")
+            sgn, m, e = fields(l.bits)
+            k = -e
+            integral = z3.Or(k <= 0, z3.And(k < 64, (m & ((z3.BitVecVal(1, 64) << z3.ZeroExt(48, k)) - 1)) == 0), m == 0)
+            mag = z3.If(e >= 0, m << z3.ZeroExt(48, e), z3.LShR(m, z3.ZeroExt(48, k)))
+            d = z3.If(r.bv < 0, -r.bv, r.bv)
+            self.domain_notes.append("float % int modelled by the definition of fmod (domain |x| < 2**63, 0 < d <= 2**53)")
+            return PyBool(z3.Not(z3.And(integral, z3.URem(mag, d) == 0))), g
         if isinstance(l, PyFloat) or isinstance(r, PyFloat):
             a, g = self.tofloat(l, g)
             b, g = self.tofloat(r, g)
@@ -501,7 +564,7 @@ def kind_of_number(x):
     return None
 
 
-def evaluate(cls, fn, kwname, operand, instance, schema_extra=None, ratio_is_integer=None, src=None):
+def evaluate(cls, fn, kwname, operand, instance, schema_extra=None, ratio_is_integer=None, src=None, exact_float_rem=False):
     """Symbolic evaluation of keyword function `fn` (bound in class `cls`)."""
     argn = list(inspect.signature(fn).parameters)
     schema = dict(schema_extra or {})
@@ -510,7 +573,7 @@ def evaluate(cls, fn, kwname, operand, instance, schema_extra=None, ratio_is_int
     def is_type(v, name):
         return cls.TYPE_CHECKER.is_type(representative(v), name)
 
-    return Ev(src if src is not None else fn, env, is_type, ratio_is_integer).run()
+    return Ev(src if src is not None else fn, env, is_type, ratio_is_integer, exact_float_rem).run()
 
 
 # ------------------------------------------------------------------------------------------------
@@ -522,7 +585,10 @@ STATS = {"queries": 0, "solver_s": 0.0, "by_solver": {}}
 def to_smt2(assertions, logic="ALL"):
     s = z3.Solver()
     s.add(*assertions)
-    return "(set-logic %s)\n%s" % (logic, s.to_smt2())
+    text = s.to_smt2()
+    for op in ("bvurem", "bvsrem", "bvudiv", "bvsdiv", "bvsmod"):      # z3 prints its internal non-zero-divisor variants
+        text = text.replace(op + "_i", op)
+    return "(set-logic %s)\n%s" % (logic, text)
 
 
 def solve(assertions, timeout=120, backend="z3", workdir=None, want_model=False):
